@@ -50,9 +50,9 @@ run_san() { # name rustflags extra-cargo-args env-opts div
   if [ "$reports" -gt 0 ]; then
     local kind=$(cat $tmp/run-$name.err $tmp/$name.log.* 2>/dev/null | grep -E "ERROR: AddressSanitizer|WARNING: ThreadSanitizer" | head -1 | sed -E 's/.*(AddressSanitizer|ThreadSanitizer): ([a-zA-Z-]+).*/\2/')
     local frame=$(cat $tmp/run-$name.err $tmp/$name.log.* 2>/dev/null | first_repo_frame)
-    add_viol "sanitizer:$name:$kind:${frame:-unknown-frame}" "$(cat $tmp/run-$name.err $tmp/$name.log.* 2>/dev/null | head -60)"
+    add_viol "sanitizer:$name:$kind:${frame:-unknown-frame}" "$(cat $tmp/run-$name.err $tmp/$name.log.* 2>/dev/null | grep -vE '^ *#[0-9]+ .*(/rustc/|/library/|rayon|registry/src)' | cut -c1-220 | head -40)"
   elif [ $rc -ge 128 ] || [ $rc -eq 66 ]; then
-    add_viol "sanitizer:$name:abnormal-exit-$rc" "$(tail -30 $tmp/run-$name.err)"
+    add_viol "sanitizer:$name:abnormal-exit-$rc" "$(tail -30 $tmp/run-$name.err | cut -c1-220)"
   fi
 }
 
@@ -60,7 +60,7 @@ if [ $asan = 1 ]; then
   run_san asan "-Zsanitizer=address -Cforce-frame-pointers=yes" "" "ASAN_OPTIONS=halt_on_error=1:abort_on_error=0:detect_leaks=0:log_path=$tmp/asan.log" 8
 fi
 if [ $tsan = 1 ]; then
-  run_san tsan "-Zsanitizer=thread" "-Zbuild-std" "TSAN_OPTIONS=halt_on_error=0:exitcode=66:log_path=$tmp/tsan.log" 10
+  run_san tsan "-Zsanitizer=thread" "-Zbuild-std" "TSAN_OPTIONS=halt_on_error=0:exitcode=66:suppressions=$root/scripts/tsan.supp:log_path=$tmp/tsan.log" 10
 fi
 if [ $vg = 1 ]; then
   t0=$(date +%s)
@@ -73,7 +73,7 @@ if [ $vg = 1 ]; then
   if [ "${errs:-0}" != "0" ] && [ -n "${errs:-}" ]; then
     frame=$(first_repo_frame < $tmp/vg.log)
     kind=$(grep -E "Invalid (read|write)|uninitialised|Mismatched|Invalid free" $tmp/vg.log | head -1 | sed -E 's/==[0-9]+== //' | cut -c1-40 | tr ' ' '-')
-    add_viol "valgrind:$kind:${frame:-unknown-frame}" "$(grep -vE '^==[0-9]+== *$' $tmp/vg.log | head -60)"
+    add_viol "valgrind:$kind:${frame:-unknown-frame}" "$(grep -vE '^==[0-9]+== *$' $tmp/vg.log | cut -c1-220 | head -40)"
   fi
 fi
 for w in $miri; do
@@ -90,7 +90,7 @@ for w in $miri; do
       # aliasing-model-only reports are advisory (DESIGN.md §6.1)
       add_addon "$(jq -nc --arg n "miri:$w" --arg k "$kind" '{name:$n, advisory:("aliasing-model report: "+$k)}')"
     else
-      add_viol "miri:$w:${frame:-unknown-frame}" "$(head -40 $tmp/miri-$w.err)"
+      add_viol "miri:$w:${frame:-unknown-frame}" "$(head -40 $tmp/miri-$w.err | cut -c1-220)"
     fi
   elif [ $rc -ne 0 ]; then
     if grep -q "MIRI-WORKLOAD-MISMATCH" $tmp/miri-$w.out; then
